@@ -153,15 +153,36 @@ def gen(seed, thorough=False):
                          'text': rng.choice(['bye', 'Exception ignored in: <x>\n', '\n',
                                              'sys:1: ResourceWarning: unclosed file\n', '0 0',
                                              'trailing junk \xe9'])})
-        elif k < 0.92:
+        elif k < 0.905:
             plan.append({'site': 'channel', 'ident': lf, 'a': 'eintr',
                          'nth': rng.randint(1, 12)})
+        elif k < 0.945:
+            # the child closes fds 1 and 2 but stays alive (daemonised helper, non-daemon
+            # thread): EOF on both pipes of a living process
+            e = {'site': 'channel', 'ident': lf, 'a': 'detach', 'pos': rng.randint(0, 200)}
+            if rng.random() < 0.4:
+                e['after_report'] = True
+            plan.append(e)
         else:
             plan.append({'site': 'channel', 'ident': lf, 'a': 'stall',
                          'pos': rng.randint(0, 60), 'dt': rng.choice([0.005, 2.0, 45.0])})
     knobs = {'pipe_capacity': rng.choice([16, 64, 512, 4096, 65536])}
     if rng.random() < 0.3:
         knobs['defaults_split'] = rng.randint(0, 99)
+    plain_ids = not any(t.get('idx') or not t['name'].isascii()
+                        for m_ in world['modules'] for c in m_['classes'] for t in c['tests'])
+    if plain_ids and rng.random() < 0.12:
+        # the parent's own stdout cannot encode everything (PYTHONIOENCODING=ascii): what it
+        # quotes from a child may fail to print - the error must be on record regardless
+        knobs['parent_stdout_ascii'] = True
+        opt['v'] = max(1, opt['v'])
+        # something not ASCII on every child's fd 2 early on, and one child that never gets
+        # to its report: the banner quoting the child's stderr cannot be printed
+        plan.append({'site': 'module.import', 'ident': W.simrt.LAYERMOD, 'a': 'write',
+                     'stream': 'realstderr', 'text': 'avertissement: caf\xe9 \u4e2d\n',
+                     'where': 'child'})
+        plan.append({'site': 'channel', 'ident': rng.choice(layers), 'a': 'kill_after',
+                     'n': rng.randint(1, 12), 'drop_unflushed': False})
     return {'property': ID, 'seed': seed, 'world': world, 'plan': _ws.order_plan(plan),
             'opt': opt, 'sched': {'prng': seed}, 'knobs': knobs}
 
@@ -212,12 +233,18 @@ def run(spec, ctx):
     T = TR.Truth(m, res.trace)
     viols = []
     lookalike = any(c['noise_header_before_report'] for c in res.children)
+    ascii_out = bool((spec.get('knobs') or {}).get('parent_stdout_ascii'))
     if res.hang:
         viols.append(C.viol('C07/hang', res.hang[:500]))
+    elif res.raised and ascii_out and res.raised[0] == 'UnicodeEncodeError':
+        pass      # the parent's main thread could not print: nothing to judge
     elif res.raised:
         viols.append(C.viol('C07/run-aborted/%s' % _ws.frames_sig(res.raised), repr(res.raised)))
     else:
-        if res.sched['thread_excs']:
+        # (a worker that could not print its banner on an ascii-only stdout may die of that;
+        # what it had to record must be on record all the same)
+        if res.sched['thread_excs'] and not (
+                ascii_out and all(x[1] == 'UnicodeEncodeError' for x in res.sched['thread_excs'])):
             viols.append(C.viol('C07/worker-thread-died/%s' % res.sched['thread_excs'][0][1],
                                 repr(res.sched['thread_excs'])))
         # (the statement asks nothing about how the parent disposes of a finished child:
